@@ -185,7 +185,11 @@ class InterfaceLDM4:
                     data_request.application_id, (), RequestedDataObjectsResult.INVALID_PRIORITY
                 )
         if data_request.order is not None:
-            if not isinstance(data_request.order, list):
+            # The declared type is tuple[OrderTupleValue, ...]; lists are accepted as before.
+            if not isinstance(data_request.order, list) and not (
+                isinstance(data_request.order, tuple)
+                and all(isinstance(order_tuple, OrderTupleValue) for order_tuple in data_request.order)
+            ):
                 return RequestDataObjectsResp(
                     data_request.application_id,
                     (),
